@@ -1428,4 +1428,381 @@ theorem backends_O (env : Env) (A B : St) (hA : WF env A) (hB : WF env B)
   · subst hlists; rfl
   · subst hlists; rfl
 
+-- ----------------------------------------------------------- tcp/udp fronts --
+
+/-- inside a cluster no two tcp (udp) fronts share an address (the hypothesis that excludes the
+    finding `diff-front-address-shared`) -/
+def UniqueFrontAddr (s : St) : Prop :=
+  ∀ t l, look s t = some (.tfs l) → l.Pairwise (fun x y => x.addr ≠ y.addr)
+
+def frontBT (udp : Bool) (cid : Nat) : Target := if udp then .udpF cid else .tcpF cid
+
+theorem eraseDups_of_nodup {α : Type} [BEq α] [LawfulBEq α] (l : List α) (h : l.Nodup) : l.eraseDups = l := by
+  induction l with
+  | nil => rfl
+  | cons a t ih =>
+    have ha := List.nodup_cons.mp h
+    rw [List.eraseDups_cons]
+    have : t.filter (fun b => !(b == a)) = t := by
+      apply List.filter_eq_self.mpr
+      intro b hb
+      simp only [Bool.not_eq_true', beq_eq_false_iff_ne, ne_eq]
+      intro e; subst e; exact ha.1 hb
+    rw [this, ih ha.2]
+
+theorem wf_tfs (env : Env) (s : St) (hs : WF env s) (udp : Bool) (cid : Nat) (l : List TcpFront)
+    (h : look s (frontBT udp cid) = some (.tfs l)) :
+    (∀ f ∈ l, f.cluster = cid ∧ canon f.addr = f.addr) ∧ l.Nodup := by
+  have := hs.2 _ (mem_of_look s _ _ h)
+  cases udp <;> simpa only [frontBT, EntryOK, if_true, if_false, Bool.false_eq_true] using this
+
+theorem tfs_shape (env : Env) (s : St) (hs : WF env s) (udp : Bool) (cid : Nat) :
+    look s (frontBT udp cid) = none ∨ ∃ l, look s (frontBT udp cid) = some (.tfs l) := by
+  cases h : look s (frontBT udp cid) with
+  | none => exact Or.inl rfl
+  | some v =>
+    have := hs.2 _ (mem_of_look s _ _ h)
+    cases udp <;> cases v <;> simp only [frontBT, EntryOK, if_true, if_false, Bool.false_eq_true] at this <;>
+      first | exact False.elim this | exact Or.inr ⟨_, rfl⟩
+
+def tfEntry (udp : Bool) : Target × Val → List (Nat × TcpFront)
+  | (.tcpF cid, .tfs l) => if udp then [] else l.map fun f => (cid, f)
+  | (.udpF cid, .tfs l) => if udp then l.map fun f => (cid, f) else []
+  | _ => []
+
+theorem tcpFrontsOf_eq (s : St) (udp : Bool) : tcpFrontsOf s udp = s.flatMap (tfEntry udp) := rfl
+
+theorem tfEntry_spec (udp : Bool) (t : Target) (v : Val) (x : Nat × TcpFront) :
+    x ∈ tfEntry udp (t, v) ↔ ∃ l, t = frontBT udp x.1 ∧ v = .tfs l ∧ x.2 ∈ l := by
+  obtain ⟨c, f⟩ := x
+  cases t <;> cases v <;> cases udp <;> simp [tfEntry, frontBT]
+  all_goals exact And.comm
+
+theorem mem_tcpFrontsOf (env : Env) (s : St) (hs : WF env s) (udp : Bool) (c : Nat) (f : TcpFront) :
+    (c, f) ∈ tcpFrontsOf s udp ↔ f ∈ tfsOf (look s (frontBT udp c)) := by
+  rw [tcpFrontsOf_eq]
+  simp only [List.mem_flatMap]
+  constructor
+  · rintro ⟨e, he, h⟩
+    obtain ⟨t, v⟩ := e
+    obtain ⟨l, ht, hv, hf⟩ := (tfEntry_spec udp t v (c, f)).mp h
+    subst ht; subst hv
+    rw [look_of_mem s hs.1 _ _ he]; exact hf
+  · intro h
+    rcases tfs_shape env s hs udp c with hn | ⟨l, hl⟩
+    · rw [hn] at h; simp [tfsOf] at h
+    · rw [hl] at h; simp only [tfsOf] at h
+      exact ⟨_, mem_of_look s _ _ hl, (tfEntry_spec udp _ _ (c, f)).mpr ⟨l, rfl, rfl, h⟩⟩
+
+theorem nodup_tcpFrontsOf (env : Env) (s : St) (hs : WF env s) (udp : Bool) : (tcpFrontsOf s udp).Nodup := by
+  rw [tcpFrontsOf_eq]
+  unfold List.Nodup
+  rw [List.pairwise_flatMap]
+  constructor
+  · intro e he
+    obtain ⟨t, v⟩ := e
+    -- inside one entry: the list itself is duplicate-free
+    have : ∀ x ∈ tfEntry udp (t, v), ∀ y ∈ tfEntry udp (t, v), True := fun _ _ _ _ => trivial
+    cases t <;> cases v <;> simp only [tfEntry] <;> try exact List.Pairwise.nil
+    all_goals
+      have hok := hs.2 _ he
+      simp only [EntryOK] at hok
+      split
+      · first | exact List.Pairwise.nil | (rw [List.pairwise_map]; exact List.Pairwise.imp (fun h e => h (by injection e)) hok.2)
+      · first | exact List.Pairwise.nil | (rw [List.pairwise_map]; exact List.Pairwise.imp (fun h e => h (by injection e)) hok.2)
+  · have hk : s.Pairwise (fun a b => a.1 ≠ b.1) := by
+      have := hs.1
+      unfold List.Nodup at this
+      rw [List.pairwise_map] at this
+      exact this
+    refine List.Pairwise.imp ?_ hk
+    intro e e' hne x hx y hy exy
+    obtain ⟨t, v⟩ := e; obtain ⟨t', v'⟩ := e'
+    subst exy
+    obtain ⟨l, ht, _, _⟩ := (tfEntry_spec udp t v x).mp hx
+    obtain ⟨l', ht', _, _⟩ := (tfEntry_spec udp t' v' x).mp hy
+    exact hne (by simp [ht, ht'])
+
+def tfRm (udp : Bool) (f : TcpFront) : Cmd := if udp then .removeUdpF f else .removeTcpF f
+def tfAdd (udp : Bool) (f : TcpFront) : Cmd := if udp then .addUdpF f else .addTcpF f
+
+theorem tgt_tfRm (udp : Bool) (f : TcpFront) : tgt (tfRm udp f) = some (frontBT udp f.cluster) := by cases udp <;> rfl
+theorem tgt_tfAdd (udp : Bool) (f : TcpFront) : tgt (tfAdd udp f) = some (frontBT udp f.cluster) := by cases udp <;> rfl
+theorem loc_tfRm (env : Env) (udp : Bool) (f : TcpFront) (v : Option Val) : loc env (tfRm udp f) v = removeTcpFront f v := by
+  cases udp <;> rfl
+theorem loc_tfAdd (env : Env) (udp : Bool) (f : TcpFront) (v : Option Val) : loc env (tfAdd udp f) v = addTcpFront f v := by
+  cases udp <;> rfl
+theorem frontBT_inj (udp : Bool) (a b : Nat) (h : frontBT udp a = frontBT udp b) : a = b := by
+  cases udp <;> simpa [frontBT] using h
+
+theorem diffTcpFronts_eq (a b : St) (udp : Bool) :
+    diffTcpFronts a b udp =
+      (((tcpFrontsOf a udp).eraseDups).filter (fun p => !((tcpFrontsOf b udp).eraseDups).contains p)).flatMap
+        (fun p => [tfRm udp p.2]) ++
+      (((tcpFrontsOf b udp).eraseDups).filter (fun p => !((tcpFrontsOf a udp).eraseDups).contains p)).flatMap
+        (fun p => [tfAdd udp p.2]) := by
+  have hm : ∀ {α : Type} (f : α → Cmd) (l : List α), l.flatMap (fun p => [f p]) = l.map f := by
+    intro α f l; induction l with
+    | nil => rfl
+    | cons x t ih => simp [List.flatMap_cons, ih]
+  cases udp <;> simp [diffTcpFronts, tfRm, tfAdd, hm]
+
+theorem tf_removed_fold (env : Env) (udp : Bool) (cid : Nat) (L : List (Nat × TcpFront)) :
+    L.Nodup → (∀ p ∈ L, p.2.cluster = p.1 ∧ canon p.2.addr = p.2.addr) →
+    ∀ (cur : List TcpFront), cur.Nodup → cur.Pairwise (fun x y => x.addr ≠ y.addr) →
+      (∀ p ∈ L, p.1 = cid → p.2 ∈ cur) →
+      ∀ v, (v = none ∧ cur = []) ∨ v = some (.tfs cur) →
+      ∃ v', foldTO env (frontBT udp cid) (v, true) (L.flatMap (fun p => [tfRm udp p.2])) = (v', true) ∧
+        tfsOf v' = cur.filter (fun f => !L.contains (cid, f)) ∧ (v' = none ∨ ∃ l, v' = some (.tfs l)) := by
+  induction L with
+  | nil =>
+    intro _ _ cur _ _ _ v hv
+    refine ⟨v, rfl, ?_, ?_⟩
+    · have : cur.filter (fun f => !([] : List (Nat × TcpFront)).contains (cid, f)) = cur :=
+        List.filter_eq_self.mpr (by simp)
+      rw [this]
+      rcases hv with ⟨rfl, rfl⟩ | rfl <;> rfl
+    · rcases hv with ⟨rfl, _⟩ | rfl
+      · exact Or.inl rfl
+      · exact Or.inr ⟨_, rfl⟩
+  | cons p L ih =>
+    intro hnd hok cur hcn hcu hin v hv
+    obtain ⟨c, f⟩ := p
+    have hnd' := List.nodup_cons.mp hnd
+    have hokp := hok (c, f) (by simp)
+    simp only at hokp
+    simp only [List.flatMap_cons, foldTO_append]
+    by_cases hc : c = cid
+    · subst hc
+      have hf : f ∈ cur := hin (c, f) (by simp) rfl
+      have hv' : v = some (.tfs cur) := by
+        rcases hv with ⟨_, e⟩ | e
+        · rw [e] at hf; simp at hf
+        · exact e
+      subst hv'
+      -- removing by address removes exactly `f`
+      have hfilt : cur.filter (fun x => decide (x.addr ≠ canon f.addr)) = cur.filter (fun x => decide (x ≠ f)) := by
+        apply List.filter_congr
+        intro x hx
+        rw [hokp.2]
+        by_cases e : x = f
+        · subst e; simp
+        · have := pairwise_sym_mem (fun a b : TcpFront => a.addr ≠ b.addr) (fun a b h e => h e.symm) cur hcu x f hx hf e
+          simp [e, this]
+      have hlen : (cur.filter (fun x => decide (x ≠ f))).length ≠ cur.length := by
+        intro hl
+        have := filter_eq_self_of_length _ _ hl
+        have hf' : f ∈ cur.filter (fun x => decide (x ≠ f)) := by rw [this]; exact hf
+        simpa using (List.mem_filter.mp hf').2
+      have ht : tgt (tfRm udp f) = some (frontBT udp c) := by rw [tgt_tfRm, hokp.1]
+      have hstep : foldTO env (frontBT udp c) (some (.tfs cur), true) [tfRm udp f] =
+          (some (.tfs (cur.filter (fun x => decide (x ≠ f)))), true) := by
+        simp only [foldTO_cons, foldTO_nil, ht, if_true, loc_tfRm, removeTcpFront, hfilt, Bool.true_and]
+        have : decide ((cur.filter (fun x => decide (x ≠ f))).length ≠ cur.length) = true := by simpa using hlen
+        rw [this]
+      rw [hstep]
+      obtain ⟨v', h1, h2, h3⟩ := ih hnd'.2 (fun q hq => hok q (by simp [hq])) (cur.filter (fun x => decide (x ≠ f)))
+        (List.Nodup.sublist List.filter_sublist hcn) (List.Pairwise.sublist List.filter_sublist hcu)
+        (by
+          intro q hq hqc
+          refine List.mem_filter.mpr ⟨hin q (by simp [hq]) hqc, ?_⟩
+          simp only [ne_eq, decide_eq_true_eq]
+          intro e
+          apply hnd'.1
+          obtain ⟨qc, qf⟩ := q
+          simp only at hqc e; subst hqc; subst e; exact hq)
+        _ (Or.inr rfl)
+      refine ⟨v', h1, ?_, h3⟩
+      rw [h2, List.filter_filter]
+      apply List.filter_congr
+      intro x _
+      simp only [List.contains_eq_mem, List.mem_cons, Prod.mk.injEq, true_and, ne_eq]
+      by_cases e : x = f <;> simp [e]
+    · have hskip : ∀ cmd ∈ [tfRm udp f], tgt cmd ≠ some (frontBT udp cid) := by
+        intro cmd hcmd; simp at hcmd; subst hcmd
+        rw [tgt_tfRm, hokp.1]
+        intro h; injection h with h; exact hc (frontBT_inj udp _ _ h)
+      rw [foldTO_skip env _ _ _ hskip]
+      obtain ⟨v', h1, h2, h3⟩ := ih hnd'.2 (fun q hq => hok q (by simp [hq])) cur hcn hcu
+        (fun q hq => hin q (by simp [hq])) v hv
+      refine ⟨v', h1, ?_, h3⟩
+      rw [h2]
+      apply List.filter_congr
+      intro x _
+      have : ¬ (cid = c) := fun e => hc e.symm
+      simp [this]
+
+theorem tf_added_fold (env : Env) (udp : Bool) (cid : Nat) (L : List (Nat × TcpFront)) :
+    L.Nodup → (∀ p ∈ L, p.2.cluster = p.1 ∧ canon p.2.addr = p.2.addr) →
+    ∀ (v : Option Val), (v = none ∨ ∃ l, v = some (.tfs l)) → (∀ p ∈ L, p.1 = cid → p.2 ∉ tfsOf v) →
+      ∃ v', foldTO env (frontBT udp cid) (v, true) (L.flatMap (fun p => [tfAdd udp p.2])) = (v', true) ∧
+        tfsOf v' = tfsOf v ++ (L.filter (fun p => decide (p.1 = cid))).map (·.2) ∧ (v' = none ∨ ∃ l, v' = some (.tfs l)) := by
+  induction L with
+  | nil => intro _ _ v hv _; exact ⟨v, rfl, by simp, hv⟩
+  | cons p L ih =>
+    intro hnd hok v hv hnot
+    obtain ⟨c, f⟩ := p
+    have hnd' := List.nodup_cons.mp hnd
+    have hokp := hok (c, f) (by simp)
+    simp only at hokp
+    simp only [List.flatMap_cons, foldTO_append]
+    by_cases hc : c = cid
+    · subst hc
+      have hf : f ∉ tfsOf v := hnot (c, f) (by simp) rfl
+      have hfr : ({ f with addr := canon f.addr } : TcpFront) = f := by
+        have := hokp.2; cases f; simp_all
+      have ht : tgt (tfAdd udp f) = some (frontBT udp c) := by rw [tgt_tfAdd, hokp.1]
+      have hstep : foldTO env (frontBT udp c) (v, true) [tfAdd udp f] = (some (.tfs (tfsOf v ++ [f])), true) := by
+        simp only [foldTO_cons, foldTO_nil, ht, if_true, loc_tfAdd]
+        unfold addTcpFront
+        rw [hfr]
+        simp [hf]
+      rw [hstep]
+      obtain ⟨v', h1, h2, h3⟩ := ih hnd'.2 (fun q hq => hok q (by simp [hq])) (some (.tfs (tfsOf v ++ [f])))
+        (Or.inr ⟨_, rfl⟩)
+        (by
+          intro q hq hqc
+          simp only [tfsOf, List.mem_append, List.mem_singleton, not_or]
+          refine ⟨hnot q (by simp [hq]) hqc, ?_⟩
+          intro e
+          apply hnd'.1
+          obtain ⟨qc, qf⟩ := q
+          simp only at hqc e; subst hqc; subst e; exact hq)
+      refine ⟨v', h1, ?_, h3⟩
+      rw [h2]; simp [tfsOf, List.filter_cons]
+    · have hskip : ∀ cmd ∈ [tfAdd udp f], tgt cmd ≠ some (frontBT udp cid) := by
+        intro cmd hcmd; simp at hcmd; subst hcmd
+        rw [tgt_tfAdd, hokp.1]
+        intro h; injection h with h; exact hc (frontBT_inj udp _ _ h)
+      rw [foldTO_skip env _ _ _ hskip]
+      obtain ⟨v', h1, h2, h3⟩ := ih hnd'.2 (fun q hq => hok q (by simp [hq])) v hv
+        (fun q hq => hnot q (by simp [hq]))
+      refine ⟨v', h1, ?_, h3⟩
+      rw [h2]; simp [List.filter_cons, hc]
+
+theorem not_contains_iff' {α : Type} [BEq α] [LawfulBEq α] (l : List α) (p : α) : (!l.contains p) = true ↔ p ∉ l := by
+  simp
+
+theorem tfsOf_mem_ok (env : Env) (s : St) (hs : WF env s) (udp : Bool) (c : Nat) (f : TcpFront)
+    (h : f ∈ tfsOf (look s (frontBT udp c))) : f.cluster = c ∧ canon f.addr = f.addr := by
+  rcases tfs_shape env s hs udp c with hn | ⟨l, hl⟩
+  · rw [hn] at h; simp [tfsOf] at h
+  · rw [hl] at h; exact (wf_tfs env s hs udp c l hl).1 f h
+
+theorem tfsOf_nodup (env : Env) (s : St) (hs : WF env s) (udp : Bool) (c : Nat) :
+    (tfsOf (look s (frontBT udp c))).Nodup := by
+  rcases tfs_shape env s hs udp c with hn | ⟨l, hl⟩
+  · rw [hn]; simp [tfsOf]
+  · rw [hl]; exact (wf_tfs env s hs udp c l hl).2
+
+/-- tcp / udp fronts of one cluster: under unique addresses in `A`, the commands of `diff` are
+    accepted and leave a permutation of `B`'s list -/
+theorem tfs_O (env : Env) (A B : St) (hA : WF env A) (hB : WF env B) (huA : UniqueFrontAddr A)
+    (udp : Bool) (cid : Nat) :
+    ∃ v', foldTO env (frontBT udp cid) (look A (frontBT udp cid), true) (diffTcpFronts A B udp) = (v', true) ∧
+      (tfsOf v').Perm (tfsOf (look B (frontBT udp cid))) ∧ (v' = none ∨ ∃ l, v' = some (.tfs l)) := by
+  have eA := eraseDups_of_nodup _ (nodup_tcpFrontsOf env A hA udp)
+  have eB := eraseDups_of_nodup _ (nodup_tcpFrontsOf env B hB udp)
+  have mA := mem_tcpFrontsOf env A hA udp
+  have mB := mem_tcpFrontsOf env B hB udp
+  rw [diffTcpFronts_eq, eA, eB, foldTO_append]
+  -- removed phase
+  have hcurA : (look A (frontBT udp cid) = none ∧ tfsOf (look A (frontBT udp cid)) = []) ∨
+      look A (frontBT udp cid) = some (.tfs (tfsOf (look A (frontBT udp cid)))) := by
+    rcases tfs_shape env A hA udp cid with hn | ⟨l, hl⟩
+    · left; rw [hn]; exact ⟨rfl, rfl⟩
+    · right; rw [hl]; rfl
+  have huA' : (tfsOf (look A (frontBT udp cid))).Pairwise (fun x y => x.addr ≠ y.addr) := by
+    rcases tfs_shape env A hA udp cid with hn | ⟨l, hl⟩
+    · rw [hn]; simp [tfsOf]
+    · rw [hl]; exact huA _ l hl
+  obtain ⟨v1, h1, hm1, hs1⟩ := tf_removed_fold env udp cid
+    ((tcpFrontsOf A udp).filter (fun p => !(tcpFrontsOf B udp).contains p))
+    (List.Nodup.sublist List.filter_sublist (nodup_tcpFrontsOf env A hA udp))
+    (fun p hp => tfsOf_mem_ok env A hA udp p.1 p.2 ((mA p.1 p.2).mp (List.mem_filter.mp hp).1))
+    (tfsOf (look A (frontBT udp cid))) (tfsOf_nodup env A hA udp cid) huA'
+    (fun p hp hc => by rw [← hc]; exact (mA p.1 p.2).mp (List.mem_filter.mp hp).1)
+    (look A (frontBT udp cid)) hcurA
+  rw [h1]
+  -- what is left after the removals: the fronts also in B
+  have memLr : ∀ x : TcpFront, (cid, x) ∈ (tcpFrontsOf A udp).filter (fun p => !(tcpFrontsOf B udp).contains p) ↔
+      x ∈ tfsOf (look A (frontBT udp cid)) ∧ x ∉ tfsOf (look B (frontBT udp cid)) := by
+    intro x
+    rw [List.mem_filter, not_contains_iff', mA, mB]
+  have memLa : ∀ x : TcpFront, (cid, x) ∈ (tcpFrontsOf B udp).filter (fun p => !(tcpFrontsOf A udp).contains p) ↔
+      x ∈ tfsOf (look B (frontBT udp cid)) ∧ x ∉ tfsOf (look A (frontBT udp cid)) := by
+    intro x
+    rw [List.mem_filter, not_contains_iff', mA, mB]
+  have hleft : ∀ x, x ∈ tfsOf v1 ↔ x ∈ tfsOf (look A (frontBT udp cid)) ∧ x ∈ tfsOf (look B (frontBT udp cid)) := by
+    intro x
+    rw [hm1, List.mem_filter, not_contains_iff', memLr]
+    constructor
+    · rintro ⟨hx, hc⟩
+      refine ⟨hx, ?_⟩
+      apply Classical.byContradiction
+      intro hnb; exact hc ⟨hx, hnb⟩
+    · rintro ⟨hx, hxb⟩
+      exact ⟨hx, fun h => h.2 hxb⟩
+  -- added phase
+  obtain ⟨v2, h2, hm2, hs2⟩ := tf_added_fold env udp cid
+    ((tcpFrontsOf B udp).filter (fun p => !(tcpFrontsOf A udp).contains p))
+    (List.Nodup.sublist List.filter_sublist (nodup_tcpFrontsOf env B hB udp))
+    (fun p hp => tfsOf_mem_ok env B hB udp p.1 p.2 ((mB p.1 p.2).mp (List.mem_filter.mp hp).1))
+    v1 hs1
+    (by
+      intro p hp hc hin
+      have hA' := ((hleft p.2).mp hin).1
+      have := (List.mem_filter.mp hp).2
+      simp only [Bool.not_eq_true', List.contains_eq_mem, decide_eq_false_iff_not] at this
+      apply this
+      obtain ⟨pc, pf⟩ := p
+      simp only at hc hA'; subst hc
+      exact (mA pc pf).mpr hA')
+  refine ⟨v2, h2, ?_, hs2⟩
+  -- membership of the added part
+  have hadded : ∀ x, x ∈ ((((tcpFrontsOf B udp).filter (fun p => !(tcpFrontsOf A udp).contains p)).filter
+      (fun p => decide (p.1 = cid))).map (·.2)) ↔
+      x ∈ tfsOf (look B (frontBT udp cid)) ∧ x ∉ tfsOf (look A (frontBT udp cid)) := by
+    intro x
+    rw [← memLa]
+    simp only [List.mem_map, List.mem_filter, decide_eq_true_eq]
+    constructor
+    · rintro ⟨p, ⟨hp, hc⟩, rfl⟩
+      obtain ⟨pc, pf⟩ := p
+      simp only at hc; subst hc
+      exact hp
+    · intro hp
+      exact ⟨(cid, x), ⟨hp, rfl⟩, rfl⟩
+  apply (List.perm_ext_iff_of_nodup ?_ (tfsOf_nodup env B hB udp cid)).mpr
+  · intro x
+    rw [hm2, List.mem_append, hleft, hadded]
+    constructor
+    · rintro (h | h)
+      · exact h.2
+      · exact h.1
+    · intro hb
+      by_cases ha : x ∈ tfsOf (look A (frontBT udp cid))
+      · exact Or.inl ⟨ha, hb⟩
+      · exact Or.inr ⟨hb, ha⟩
+  · rw [hm2]
+    refine List.nodup_append.mpr ⟨?_, ?_, ?_⟩
+    · rw [hm1]; exact List.Nodup.sublist List.filter_sublist (tfsOf_nodup env A hA udp cid)
+    · -- second components of pairs with the same first component
+      have hnd2 : (((tcpFrontsOf B udp).filter (fun p => !(tcpFrontsOf A udp).contains p)).filter
+          (fun p => decide (p.1 = cid))).Nodup :=
+        List.Nodup.sublist List.filter_sublist
+          (List.Nodup.sublist List.filter_sublist (nodup_tcpFrontsOf env B hB udp))
+      unfold List.Nodup at hnd2 ⊢
+      rw [List.pairwise_map]
+      refine List.Pairwise.imp_of_mem ?_ hnd2
+      intro p q hp hq hne e
+      apply hne
+      have c1 : p.1 = cid := by simpa using (List.mem_filter.mp hp).2
+      have c2 : q.1 = cid := by simpa using (List.mem_filter.mp hq).2
+      obtain ⟨pc, pf⟩ := p; obtain ⟨qc, qf⟩ := q
+      simp only at c1 c2 e; subst c1; subst c2; subst e; rfl
+    · intro x hx y hy e
+      subst e
+      exact ((hadded x).mp hy).2 ((hleft x).mp hx).1
+
 end Sozu.State
